@@ -71,7 +71,25 @@ def two_part_programs():
         ["list", [Vv("r"), Vv("s")]]
 
 
+INNER_IDXFLAG = {"name": "inner", "params": [["a", NODEFAULT]],
+                 "body": [call("mkd", [P("a")], "m"), call("pair", [P("a")], "t"), call("inc", [P("a")], "w0", flag=Vv("m", "k")),
+                          call("add", [P("a")], "w1", flag=Vv("t", 1)), call("pair_u", [P("a")], ["ua", "ub"]), call("inc", [P("a")], "w2", flag=Vv("ua"))],
+                 "ret": ["tuple", [Vv("w0"), Vv("w1"), Vv("w2")]], "subs": []}
+MID_IDXFLAG = {"name": "mid", "params": [["t", NODEFAULT]], "body": [sub("inner", [P("t")], ["ia", "ib", "ic"])],
+               "ret": ["list", [Vv("ia"), Vv("ib"), Vv("ic")]], "subs": [INNER_IDXFLAG]}
+
+
+def inner_flag_programs():
+    """flags INSIDE a nested DAG that are indexed / unpacked parts of inner results (no flag on the nested call itself)"""
+    yield "inner_indexed_flags", [sub("inner", [P("x")], ["ra", "rb", "rc"]), call("ident", [Vv("rb")], "s")], \
+        ["tuple", [Vv("ra"), Vv("rb"), Vv("rc"), Vv("s")]], [INNER_IDXFLAG]
+    yield "inner_indexed_flags_two_levels", [sub("mid", [P("x")], "r")], ["atom", Vv("r")], [MID_IDXFLAG]
+
+
 def cases(tier: str):
+    for name, body, rspec, subs in inner_flag_programs():
+        prog = {"name": "main", "params": [["x", NODEFAULT], ["y", 4]], "body": body, "ret": rspec, "subs": subs}
+        yield dict(flag="inside_nested", carrier=name, prog=prog, expect_build_error=None)
     for name, body, rspec in two_part_programs():
         prog = {"name": "main", "params": [["x", NODEFAULT], ["y", 4]], "body": body, "ret": rspec, "subs": []}
         yield dict(flag="two_parts", carrier=name, prog=prog, expect_build_error=None)
